@@ -5,12 +5,12 @@ import _harbor
 
 META = dict(
     category="model_checking",
-    technique="explicit TLA+ spec (Harbor/VaultSpec) + TLC trace validation of recorded real-code behaviours and bounded implementation exploration; vault handlers predicted by the spec (conformance)",
-    text='TLC evaluates the exact rational collateralisation inequality (cross-multiplied, no rounding) on every successful create/draw/withdraw/deposit-and-draw, the debt floor on every open vault after every step, the ceiling on the sum of open principals per product, and rejection whenever a required price is inactive; drivers generate amounts at the boundary -1/0/+1.',
-    note="Bounded: 3 users, 4 products (two sharing a collateral denom, one stable-mint), small amounts (TLC 32-bit), decimals 1/10/100, oracle-priced debt; interest amounts are environment values taken from the log; V1 liquidation/auction generation and emergency shutdown are not driven by this family. Trusted: projection functions, TLC, bank module.",
+    technique="explicit TLA+ spec (Harbor/VaultSpec/DutchV1) + TLC trace validation of recorded real-code behaviours and bounded implementation exploration; vault handlers predicted by the spec (conformance)",
+    text='TLC evaluates the exact rational collateralisation inequality (cross-multiplied, no rounding) on every successful create/draw/withdraw/deposit-and-draw, the debt floor on every open vault after every step, the ceiling on the sum of open principals per product, and rejection whenever a required price is inactive; drivers generate amounts at the boundary -1/0/+1. The ratio requirement is judged outside emergency shutdown only (the statement); floor and ceiling are judged always, in step form (the step that sets a principal / raises the outstanding principal); withdrawals in the cool-off are predicted by VaultSpec (ratio >= 1 on the principal at the snapshot prices) through Conf_Vault.',
+    note="Bounded: 3 users, 4 products (two sharing a collateral denom, one stable-mint), small amounts (TLC 32-bit), decimals 1/10/100, oracle-priced debt; interest amounts are environment values taken from the log; both liquidation/auction generations are driven (V2 through blocks and messages; V1 - x/liquidation, x/auction - through MsgLiquidateVault / MsgPlaceDutchBid and, because module.go does not wire its begin blockers, through direct calls of the exported BeginBlockers as environment actions V1Sweep / V1Tick); emergency shutdown is driven too (rarely in ordinary runs, headed for in every sixth run, and in a bounded exploration of the shutdown flows: MsgDepositESM / MsgExecuteESM, the esm begin blocker with price snapshot and redemption set-up after the cool-off, MsgCollateralRedemption, withdrawals in the cool-off, V2 TriggerEsm and the V1 shutdown close-out). Trusted: projection functions, TLC, bank module.",
     design_ref='4 C03',
 )
 
 
 def run(c):
-    return _harbor.run(c, ['okRiskOps', 'rejectedRisk', 'inactivePriceAttempts'])
+    return _harbor.run(c, ['okRiskOps', 'rejectedRisk', 'inactivePriceAttempts', 'esmCoolOffWithdrawals', 'esmRejectedMints'])
